@@ -43,6 +43,20 @@ def run_session(cfg, ctx, nreq, fp=True):
     peer.max_open = 0
     kern = Kernel(peer, ctx=ctx)
     loop = KLoop(kern=kern)
+    if cfg.get('neighbour'):
+        # another protocol object for the same endpoint with OTHER timeout / retries / keep-alive was used before in this
+        # process (one answered request, one exhausted one) and stays alive: nothing of it may show in this session
+        q = make_protocol(tr, 0.25 * T, R + 2, not ka)
+        peer.forced = ['valid', 'drop', 'drop', 'drop', 'drop', 'drop']
+        saved, peer.ctx = peer.ctx, None
+        loop.run(_exec(q.read_command(0x7000, 2), q))
+        loop.run(_exec(q.read_command(0x7000, 2), q))
+        peer.forced = []
+        peer.ctx = saved
+        loop.settle(0)
+        del peer.sent[:]
+        if hasattr(peer, 'valid_for'):
+            del peer.valid_for[:]
     p = make_protocol(tr, T, R, ka)
     if fp:
         ctx.fp = lambda: fingerprint(loop, (p,))
@@ -194,7 +208,8 @@ def _job(j):
         scripts = [o.letters for o in obs]
         before = sorted({x for sc in scripts[:i] for x in sc if x != 'valid'})
         own = sorted({x for x in (scripts[i] if i < len(scripts) else []) if x != 'valid'})
-        key = f"session:{clause}/{cfg['transport']}/ka={int(cfg['ka'])}/{'+'.join(own) or 'valid'}" + \
+        key = f"session:{clause}/{cfg['transport']}/ka={int(cfg['ka'])}" + ('/neighbour' if cfg.get('neighbour') else '') + \
+              f"/{'+'.join(own) or 'valid'}" + \
               (f"/after:{'+'.join(before) or 'valid'}" if i else '')
         if not again:
             key += '/order-dependent'
@@ -222,6 +237,8 @@ def explore_sessions(tier, seed, props, light=False):
                     jobs.append((cfg, 3, 3 if R == 1 else 2, props))
                 else:
                     jobs.append((cfg, 3, 2, props))
+                if R == 1:
+                    jobs.append((dict(cfg, neighbour=True), 2, 2, props))
     k = seed % len(jobs)
     jobs = jobs[k:] + jobs[:k]
     total = Stats()
